@@ -69,7 +69,9 @@ int parse_db(AsmContext *asm_context, int null_term_flag)
     {
       tokens_push(asm_context, token, token_type);
 
-      if (eval_expression(asm_context, &data32) != 0)
+      Var var;
+
+      if (eval_expression(asm_context, var) != 0)
       {
         if (asm_context->pass == 2)
         {
@@ -78,14 +80,17 @@ int parse_db(AsmContext *asm_context, int null_term_flag)
         }
 
         ignore_operand(asm_context);
-        data32 = 0;
+        var.set_int((uint64_t)0);
       }
 
-      if (data32 < -128 || data32 > 0xff)
+      // Check the range before narrowing so 0x100000001 isn't taken as 1.
+      if (var.get_int64() < -128 || var.get_int64() > 0xff)
       {
         print_error_range(asm_context, "db", -128, 0xff);
         return -1;
       }
+
+      data32 = var.get_int32();
 
       asm_context->memory_write_inc((uint8_t)data32, DL_DATA);
       asm_context->data_count++;
@@ -127,7 +132,9 @@ int parse_dc16(AsmContext *asm_context)
     if (token_type == TOKEN_EOL || token_type == TOKEN_EOF) { break; }
     tokens_push(asm_context, token, token_type);
 
-    if (eval_expression(asm_context, &data32) != 0)
+    Var var;
+
+    if (eval_expression(asm_context, var) != 0)
     {
       if (asm_context->pass == 2)
       {
@@ -136,14 +143,17 @@ int parse_dc16(AsmContext *asm_context)
       }
 
       ignore_operand(asm_context);
-      data32 = 0;
+      var.set_int((uint64_t)0);
     }
 
-    if (data32 < -32768 || data32 > 0xffff)
+    // Check the range before narrowing so 0x100000001 isn't taken as 1.
+    if (var.get_int64() < -32768 || var.get_int64() > 0xffff)
     {
       print_error_range(asm_context, "dc16", -32768, 0xffff);
       return -1;
     }
+
+    data32 = var.get_int32();
 
     data16 = (uint16_t)data32;
 
